@@ -158,16 +158,25 @@ def printerName : Printer → Formula → Str
 /-- a coefficient as printed: `str(v)` and one blank, nothing when it equals 1 -/
 def coefText (q : Rat) : Str := if q = 1 then [] else coefStr q ++ [' ']
 
-/-- the terms of one side: stored order, zero coefficients not shown -/
-def sideTexts (p : Printer) (d : List (Formula × Rat)) : List Str :=
-  (d.filter (fun fq => fq.2 ≠ 0)).map (fun fq => coefText fq.2 ++ printerName p fq.1)
-
-/-- the side as the reaction stores it: keys are the written formulas -/
-def keyed (d : List (Formula × Rat)) : List (Str × Rat) := d.map (fun fq => (fq.1.render, fq.2))
-
 /-- the substance table holds, for this formula, the substance `Substance.from_formula` makes of it -/
 def Listed (S : List (Str × Substance)) (f : Formula) : Prop :=
   f.WF ∧ ∃ s, S.lookup f.render = some s ∧ substanceFromFormula f.render = .ok s
+
+/-- a species of a printed reaction: either listed (see `Listed`) or absent from the table (`substances.get(k, k)` is then the key itself) -/
+def Known (S : List (Str × Substance)) (f : Formula) : Prop := S.lookup f.render = none ∨ Listed S f
+
+/-- what is shown for the species written `f`: its key as it is when the table has no entry, else the printer's name of the formula -/
+def shownName (p : Printer) (S : List (Str × Substance)) (f : Formula) : Str :=
+  match S.lookup f.render with
+  | none => f.render
+  | some _ => printerName p f
+
+/-- the terms of one side: stored order, zero coefficients not shown -/
+def sideTexts (p : Printer) (S : List (Str × Substance)) (d : List (Formula × Rat)) : List Str :=
+  (d.filter (fun fq => fq.2 ≠ 0)).map (fun fq => coefText fq.2 ++ shownName p S fq.1)
+
+/-- the side as the reaction stores it: keys are the written formulas -/
+def keyed (d : List (Formula × Rat)) : List (Str × Rat) := d.map (fun fq => (fq.1.render, fq.2))
 
 theorem printKey_formula (p : Printer) (S : List (Str × Substance)) (f : Formula) (h : Listed S f) :
     printKey p S f.render = printerName p f := by
@@ -184,15 +193,23 @@ theorem printKey_formula (p : Printer) (S : List (Str × Substance)) (f : Formul
   · simp [Printer.nameOf, attrName, Render.prettyNameAttr, printerName, present_ne_nil unicodePres unicode_op_ne f hd]
   · simp [Printer.nameOf, attrName, Render.webNameAttr, printerName, present_ne_nil htmlPres html_op_ne f hd]
 
+theorem printKey_known (p : Printer) (S : List (Str × Substance)) (f : Formula) (h : Known S f) :
+    printKey p S f.render = shownName p S f := by
+  rcases h with h | h
+  · simp [printKey, shownName, h]
+  · rw [printKey_formula p S f h]
+    obtain ⟨_, s, hl, _⟩ := h
+    simp [shownName, hl]
+
 theorem coeffSpace_eq (p : Printer) : p.coeffSpace = [' '] := by cases p <;> rfl
 
 theorem printSide_formulas (p : Printer) (S : List (Str × Substance)) (d : List (Formula × Rat))
-    (hS : ∀ fq ∈ d, Listed S fq.1) : printSide p S (keyed d) = sideTexts p d := by
+    (hS : ∀ fq ∈ d, Known S fq.1) : printSide p S (keyed d) = sideTexts p S d := by
   induction d with
   | nil => rfl
   | cons fq d ih =>
     have ih' := ih (fun x hx => hS x (by simp [hx]))
-    have hk := printKey_formula p S fq.1 (hS fq (by simp))
+    have hk := printKey_known p S fq.1 (hS fq (by simp))
     simp only [printSide, keyed, sideTexts, List.map_cons] at ih' ⊢
     by_cases h0 : fq.2 = 0
     · simp only [List.filter_cons, h0, ne_eq, not_true_eq_false, decide_false, Bool.false_eq_true, if_false]
